@@ -151,7 +151,8 @@ def check_c07(pid, tier, seed, replay):
             rp = vlib.save_replay(pid, name, [(vecs, "vectors.ndjson"), (bad, "trace.ndjson")],
                                   "law %s broken by %d vector(s) (first ones saved); vectors.ndjson = the shapes, trace.ndjson = what the real "
                                   "application answered; re-run against the current tree: bin/check %s --replay <this dir>" % (sig, len(lns), pid))
-            v.violation(sig, rp, "%d vector(s), e.g. %s" % (len(lns), bad[0][:600]))
+            modes = sorted({json.loads(lines[i - 1]).get("shape", {}).get("mode", "block") for i in lns})
+            v.violation(sig, rp, "%d vector(s) in modes %s, e.g. %s" % (len(lns), ",".join(modes), bad[0][:600]))
         ok_vectors = nvec - sum(1 for ln, g, dt in errs if '"ev":"Vector"' in lines[ln - 1])
         v.cov["traces_validated_against_impl"] = ok_vectors
         v.cov["evaluations"] = nvec
@@ -176,8 +177,10 @@ def check_c07(pid, tier, seed, replay):
             sub.append((i, json.dumps(e)))
         errs2, _, _ = lanes_validate(w, "selftest", [x for _, x in sub])
         flipped = {n_ + 1 for n_, (i, _) in enumerate(sub) if i in (k, j)}
-        if {e[0] for e in errs2} != flipped:
+        already = {n_ + 1 for n_, (i, _) in enumerate(sub) if (i + 1) in {e[0] for e in errs}} - flipped
+        if {e[0] for e in errs2} - already != flipped - {n_ + 1 for n_, (i, _) in enumerate(sub) if (i + 1) in {e[0] for e in errs}}:
             raise Infra("binding self-test failed: flipped verdicts at lines %s, TLC rejected lines %s" % (sorted(flipped), sorted(e[0] for e in errs2)))
+        errs2 = [e for e in errs2 if e[0] in flipped]
         v.cov["selftest"] = "flipped the recorded verdict of vectors %d and %d: TLC rejected exactly those (%s)" % (
             k + 1, j + 1, "; ".join("%s/%s" % (g, dt) for _, g, dt in errs2))
         log("binding self-test: " + v.cov["selftest"])
@@ -188,6 +191,211 @@ def check_c07(pid, tier, seed, replay):
             "Cosmos-lane acceptance rules not stated by the property (signatures required in every mode, dynamic-fee extension option only) "
             "are documented SDK/app rules, named as such in Lanes.tla",
             "lane markers are observable only where events are returned (simulate, deliver); check/re-check are judged on the verdict alone",
+        ]
+        return v.finish()
+    finally:
+        w.cleanup()
+
+
+# ----------------------------------------------------------------------------------------------
+# C16
+# ----------------------------------------------------------------------------------------------
+
+VAUTH_CONSTS = ('CONSTANTS\n  Funded = {"s0", "s1", "s2"}\n  Fresh = {"t0", "t1"}\n  Funder = "s0"\n')
+VAUTH_TRACE_CFG = ("SPECIFICATION TraceSpec\n" + VAUTH_CONSTS + "  InitialUnits = {}\nINVARIANT Coverage\nPOSTCONDITION TraceAccepted\nCHECK_DEADLOCK FALSE\n")
+VAUTH_WITNESSES = ["W_SubmitOk", "W_SubmitFailed", "W_SubmitPoor", "W_CreateFailed", "W_Vesting1", "W_Vesting23", "W_Exhausted"]
+VAUTH_SIZES = {"quick": dict(sim_num=14, per_family=10, depth=8), "thorough": dict(sim_num=260, per_family=24, depth=10)}
+BEH_RE = re.compile(r'"BEHAVIOUR\|(\[.*\])"')
+
+
+def vauth_design(v, w, tier):
+    d = w.sub("mc")
+    vlib.stage_spec(d)
+    # vacuity: each witness predicate must be reachable (its negation, checked as an invariant, must be violated)
+    base = open(os.path.join(d, "Vauth_mc_witness.cfg")).read()
+    head = base[:base.index("INVARIANTS")]
+    for wname in VAUTH_WITNESSES:
+        with open(os.path.join(d, "w_%s.cfg" % wname), "w") as f:
+            f.write(head + "INVARIANT %s\nCHECK_DEADLOCK FALSE\n" % wname)
+        r = vlib.tlc(d, "Vauth_mc", "w_%s.cfg" % wname, workers=2, timeout=600)
+        if not r["violated"]:
+            raise Infra("design model Vauth_mc is vacuous: %s is unreachable" % wname)
+    r = vlib.tlc(d, "Vauth_mc", "Vauth_mc.cfg", workers=8 if tier == "thorough" else 4, timeout=3000)
+    if r["violated"]:
+        raise Infra("design model Vauth_mc violates one of its own laws (specification bug):\n" + r["out"][-3000:])
+    v.add_mc(r)
+    m = re.findall(r'<<"B1", (\d+), (\d+)>>', r["out"])
+    if not m:
+        raise Infra("design run wrote no B1 behaviours:\n" + r["out"][-2000:])
+    log("design run Vauth_mc: %d distinct states, %d transitions, all laws hold, all witnesses reachable; %s operations in the alphabet, %s B1 behaviours"
+        % (r["distinct"], r["generated"], m[-1][1], m[-1][0]))
+    return d, int(m[-1][0])
+
+
+def vauth_simulate(d, seed, sz, first_id):
+    """TLC -simulate: behaviours of the model as JSON; families share all but the last operation."""
+    cfg = open(os.path.join(d, "Vauth_sim.cfg")).read()
+    cfg = re.sub(r"Depth = \d+", "Depth = %d" % sz["depth"], cfg)
+    with open(os.path.join(d, "Vauth_sim_run.cfg"), "w") as f:
+        f.write(cfg)
+    r = vlib.tlc(d, "Vauth_mc", "Vauth_sim_run.cfg", workers=1, timeout=1200,
+                 simulate="num=%d" % sz["sim_num"], extra=["-depth", str(sz["depth"] + 1), "-seed", str(seed)])
+    fams = {}
+    order = []
+    for js in BEH_RE.findall(r["out"]):
+        ops = json.loads(js.replace('\\"', '"'))
+        key = json.dumps(ops[:-1])
+        if key not in fams:
+            fams[key] = []
+            order.append(key)
+        if ops not in fams[key]:
+            fams[key].append(ops)
+    out = []
+    import random
+    rnd = random.Random(seed)
+    for key in order:
+        fam = fams[key]
+        rnd.shuffle(fam)
+        for ops in fam[:sz["per_family"]]:
+            out.append({"id": first_id + len(out), "ops": ops})
+    if not out:
+        raise Infra("TLC -simulate produced no behaviour:\n" + r["out"][-2000:])
+    return out
+
+
+def vauth_run(w, path, name, shards=SHARDS, chunk=64):
+    d = w.sub(name)
+    n = sum(1 for _ in open(path))
+    shards = max(1, min(shards, n // chunk or 1))
+
+    def one(i):
+        out = os.path.join(d, "trace%d.ndjson" % i)
+        txt = vlib.vh(["vauth", "-behaviours", path, "-out", out, "-shard", str(i), "-of", str(shards), "-chunk", str(chunk)], cmd="vh_lanes")
+        m = re.findall(r"operations executed (\d+)", txt)
+        return out, int(m[-1]) if m else 0
+
+    with ThreadPoolExecutor(max_workers=shards) as ex:
+        res = list(ex.map(one, range(shards)))
+    lines = []
+    for o, _ in res:
+        lines += vlib.read_lines(o)
+    return lines, sum(n_ for _, n_ in res)
+
+
+def vauth_validate(w, name, lines):
+    d = w.sub(name)
+    with open(os.path.join(d, "trace.ndjson"), "w") as f:
+        f.write("\n".join(lines) + "\n")
+    return run_trace_spec(d, "TraceVauth", VAUTH_TRACE_CFG)
+
+
+def behaviour_of_line(lines, lineno):
+    """(first, last) 0-based indices of the behaviour containing 1-based lineno."""
+    return vlib.trace_of_line(lines, lineno)
+
+
+def vauth_replay(pid, w, replay):
+    vlib.build("vh_lanes")
+    lines, _ = vauth_run(w, os.path.join(replay, "behaviours.ndjson"), "replay-run", shards=1)
+    errs, cov, _ = vauth_validate(w, "replay-val", lines)
+    if errs:
+        for ln, g, dt in errs[:10]:
+            log("replay: law %s/%s broken at %s" % (g, dt, lines[ln - 1][:500]))
+        log("VIOLATION property=%s replay=%s" % (pid, replay))
+        return 1
+    log("replay: %d lines accepted by TraceVauth" % len(lines))
+    return 0
+
+
+@register("C16")
+def check_c16(pid, tier, seed, replay):
+    v = Verdict(pid, tier, seed)
+    w = Work(pid)
+    try:
+        if replay:
+            return vauth_replay(pid, w, replay)
+        vlib.build("vh_lanes")
+        sz = VAUTH_SIZES[tier]
+        d, nb1 = vauth_design(v, w, tier)
+        b1 = [json.loads(x) for x in vlib.read_lines(os.path.join(d, "behaviours_b1.ndjson"))]
+        b1.sort(key=lambda b: b["id"])
+        seeds = [seed] if tier == "quick" else [seed, seed * 7919 + 1, seed * 104729 + 2]
+        b2 = []
+        for s in seeds:
+            b2 += vauth_simulate(d, s, sz, nb1 + 1 + len(b2))
+        allb = b1 + b2
+        path = os.path.join(d, "behaviours.ndjson")
+        with open(path, "w") as f:
+            f.write("\n".join(json.dumps(b) for b in allb) + "\n")
+        lines, nops = vauth_run(w, path, "run", chunk=max(sz["per_family"], 48))
+        ngen = sum(1 for x in lines if '"ev":"Genesis"' in x)
+        if ngen != len(allb):
+            raise Infra("harness executed %d of %d behaviours" % (ngen, len(allb)))
+        errs, cov, rt = vauth_validate(w, "val", lines)
+        v.cov["states"] += rt["distinct"]
+        v.cov["transitions"] += rt["generated"]
+        if any(g == "Domain" for _, g, _ in errs):
+            raise Infra("trace contains operations outside the model: %s" % [e for e in errs if e[1] == "Domain"][:3])
+        by_beh = {b["id"]: b for b in allb}
+        by_sig = {}
+        for ln, g, dt in errs:
+            by_sig.setdefault("%s/%s" % (g, dt), []).append(ln)
+        bad_behaviours = set()
+        for sig, lns in sorted(by_sig.items()):
+            a, b_ = behaviour_of_line(lines, lns[0])
+            bid = json.loads(lines[a])["b"]
+            for x in lns:
+                bad_behaviours.add(json.loads(lines[x - 1])["b"])
+            name = re.sub(r"[^A-Za-z0-9_.-]", "_", sig)[:80]
+            rp = vlib.save_replay(pid, name, [([json.dumps(by_beh[bid])], "behaviours.ndjson"), (lines[a:b_ + 1], "trace.ndjson")],
+                                  "law %s broken at step %d of this behaviour (%d occurrence(s) in the run, seed %d); behaviours.ndjson = the operations, "
+                                  "trace.ndjson = what the real application did; re-run against the current tree: bin/check %s --replay <this dir>"
+                                  % (sig, lns[0] - a - 1, len(lns), seed, pid))
+            v.violation(sig, rp, "%d step(s), first: %s" % (len(lns), lines[lns[0] - 1][:700]))
+        v.cov["traces_validated_against_impl"] = len(allb) - len(bad_behaviours)
+        v.cov["evaluations"] = nops
+        v.cov["classes"] = cov
+        v.cov["behaviours"] = {"b1_enumerated": len(b1), "b2_simulated": len(b2), "operations_executed_on_real_app": nops,
+                               "lines_judged_by_tlc": len(lines)}
+        v.cov["distinct_nontrivial"] = len([k for k in cov if not k.startswith("Submit.refused.forged")])
+        v.cov["rule"] = ("behaviours of Vauth.tla executed against the real application, one real transaction per operation: B1 = every "
+                         "operation of the alphabet (3 submitters x 5 targets x 12 signature kinds; 3 vesting kinds x 5 targets x 7 routes) after "
+                         "each of 4 prefixes; B2 = TLC -simulate behaviours; distinct_nontrivial = number of distinct (operation, outcome, "
+                         "model-reason) classes exercised other than plainly forged signatures (classes counted by TraceVauth)")
+        v.cov["exhaustive"] = False
+        v.cov["samples"] = [json.loads(x) for x in lines[1:3]] + [json.loads(lines[len(lines) // 2])]
+        # binding self-test: (1) pretend a burn did not happen, (2) pretend a stored proof changed
+        a, b_ = behaviour_of_line(lines, 1)
+        k = next(i for i, x in enumerate(lines) if '"ev":"Op"' in x and '"out":"ok"' in x and '"op":"Submit"' in x)
+        a, b_ = behaviour_of_line(lines, k + 1)
+        t1 = list(lines[a:b_ + 1])
+        e = json.loads(t1[k - a])
+        e["st"]["supplyQ"] += 1
+        t1[k - a] = json.dumps(e)
+        k2 = next(i for i, x in enumerate(lines) if '"ev":"Op"' in x and '"already-proven' not in x and json.loads(x)["i"] >= 2
+                  and json.loads(lines[i - 1]).get("ev") == "Op" and "valid" in json.loads(lines[i - 1])["st"]["proof"].values())
+        a2, b2_ = behaviour_of_line(lines, k2 + 1)
+        t2 = list(lines[a2:b2_ + 1])
+        e = json.loads(t2[k2 - a2])
+        victim = next(n for n, tok in json.loads(t2[k2 - a2 - 1])["st"]["proof"].items() if tok == "valid")
+        e["st"]["proof"][victim] = "valid2"
+        t2[k2 - a2] = json.dumps(e)
+        errs2, _, _ = vauth_validate(w, "selftest", t1 + t2)
+        want = {(k - a + 1, "CostExact"), (len(t1) + k2 - a2 + 1, "ProofsFinal")}
+        got = {(ln, g) for ln, g, _ in errs2}
+        if not want <= got:
+            raise Infra("binding self-test failed: corrupted supply / proof at %s, TLC reported %s" % (sorted(want), sorted(got)))
+        v.cov["selftest"] = ("recorded supply after an executed submission raised by one unit -> CostExact; recorded proof of a proven address "
+                             "replaced -> ProofsFinal; both rejected by TLC at the corrupted lines")
+        log("binding self-test: " + v.cov["selftest"])
+        v.assumptions = [
+            "balances and supply are compared in whole units of the 1e18 cost plus a remainder (< 2^31) that only ordinary fees and vesting "
+            "amounts touch; submitters hold enough remainder that fees never borrow from the units",
+            "signature kinds are a finite menu (genuine: canonical, malleated, upper-case hex, v+27; forged: other key, other message, random, "
+            "64 / 66 bytes, missing prefix, non-hex, empty) - not all byte strings",
+            "routes of a vesting-creation message: top-level, MsgExec depth 1..4, MsgGrant, same transaction as the proof; wrappers other than "
+            "authz are outside the property's text",
+            "genesis import/export of proofs is C18's subject, not covered here",
         ]
         return v.finish()
     finally:
